@@ -157,6 +157,10 @@ def run_harness(meta, prop_id, keep=False):
     if meta.get('unwind_fns') and not meta.get('plain'):
         # loops WITHOUT contracts must be unwound before the contract instrumentation (DFCC tracks
         # locals per static DECL; unwinding afterwards makes later iterations fail the frame checks)
+        try:
+            ex_lines = open(os.path.join(wd, 'extracted.c'), errors='replace').read().split('\n')
+        except Exception:
+            ex_lines = []
         rc, out, err, dt = sh(['goto-instrument', '--show-loops', '--json-ui', cur], 120)
         names = []
         try:
@@ -164,6 +168,16 @@ def run_harness(meta, prop_id, keep=False):
                 for lp in it.get('loops', []):
                     fn = lp.get('sourceLocation', {}).get('function', '')
                     if fn in meta['unwind_fns']:
+                        # a loop that carries a loop contract (the model's os_atomic_rmw_loop, side-car contracts) stays for --apply-loop-contracts:
+                        # unwinding it first leaves the instrumentation with a half-unwound contract loop (garbage values, seen on
+                        # _dispatch_workloop_barrier_complete)
+                        ln = lp.get('sourceLocation', {}).get('line')
+                        try:
+                            src_line = ex_lines[int(ln) - 1] if ln else ''
+                        except Exception:
+                            src_line = ''
+                        if '__CPROVER_loop_invariant' in src_line:
+                            continue
                         names.append(lp.get('name'))
         except Exception:
             pass
@@ -356,8 +370,12 @@ def merge_cases(results):
         unreached = [k for k, v in reach.items() if not v]
         if bad:
             m['status'] = bad[0]['status']
-        elif unreached:
+        elif unreached and not ('CANARY' not in unreached and any(f['cls'] in ('postcondition', 'assertion') for f in m['failed'])):
             m['status'] = 'error'; m['notes'].append('vacuity guard: never reachable in any case: %s' % unreached)
+        elif unreached:
+            # same rule as a single run: a premise that became unreachable TOGETHER with failed named obligations is a
+            # behaviour change, reported through those obligations (their counterexamples are real traces)
+            m['status'] = 'fail'; m['notes'].append('vacuity guard: never reachable in any case: %s (reported through the failed obligations)' % unreached)
         else:
             m['status'] = 'pass' if not m['failed'] else 'fail'
         fr = [r for r in rs if r['failed']]
